@@ -218,7 +218,7 @@ def run_rc(prop, hname, seed, cases, procs, workdir, budget_s, extra_args=(), ma
         if max_size is not None:
             args += ["--max-size", str(max_size)]
         p = subprocess.Popen(args, stdout=logf, stderr=subprocess.STDOUT, env=run_env(prop), cwd=workdir)
-        ps.append((p, out, crash, logf))
+        ps.append((p, out, crash, logf, args))
     t0 = time.time()
     exhausted = False
     for p, *_ in ps:
@@ -231,7 +231,7 @@ def run_rc(prop, hname, seed, cases, procs, workdir, budget_s, extra_args=(), ma
             p.wait()
     merged = {}
     failures = []
-    for k, (p, out, crash, logf) in enumerate(ps):
+    for k, (p, out, crash, logf, pargs) in enumerate(ps):
         logf.close()
         st = None
         if os.path.exists(out):
@@ -254,6 +254,9 @@ def run_rc(prop, hname, seed, cases, procs, workdir, budget_s, extra_args=(), ma
                     m["samples"].extend(s["samples"][: 3 - len(m["samples"])])
             for f in st["failures"]:
                 f["harness"] = hname
+                # the whole generated campaign of this process is reproducible from its arguments: used when a failure
+                # depends on the calls made before it (state kept by the code under test) and its single case passes alone
+                f["campaign"] = [a for a in pargs[1:] if a not in (out, crash)]
                 failures.append(f)
         if os.path.exists(crash):  # written only by the death callback / SIGABRT handler (sanitizers exit with code 86, see ENV_RUN)
             try:
@@ -271,9 +274,37 @@ def run_rc(prop, hname, seed, cases, procs, workdir, budget_s, extra_args=(), ma
     return dict(stats=merged, failures=failures, budget_exhausted=exhausted)
 
 
+def replay_campaign(prop, hname, campaign, sub, key, timeout=3600):
+    """Re-run a generated campaign (same seed/cases/shard) restricted to `sub`; True if it fails again with `key`."""
+    wd = tempfile.mkdtemp(prefix=f"{prop}-camp-", dir=WORK)
+    out = os.path.join(wd, "stats.json")
+    args = []
+    skip = False
+    for a in campaign:  # drop the --out/--crash options whose values were removed
+        if skip:
+            skip = False
+            continue
+        if a in ("--out", "--crash"):
+            continue
+        args.append(a)
+    cmd = [f"{HB}/{hname}", *args, "--out", out, "--crash", os.path.join(wd, "crash.json")] + (["--sub", sub] if sub else [])
+    try:
+        subprocess.run(cmd, stdout=subprocess.DEVNULL, stderr=subprocess.DEVNULL, env=run_env(prop), cwd=wd, timeout=timeout)
+        st = json.load(open(out)) if os.path.exists(out) else {"failures": []}
+        hit = any(x.get("key") == key for x in st.get("failures", []))
+    except Exception:
+        hit = False
+    shutil.rmtree(wd, ignore_errors=True)
+    return hit
+
+
 def save_replay(prop, f):
     os.makedirs(FOUND, exist_ok=True)
     extra = {"artifact": f["artifact"]} if f.get("artifact") else {}
+    if f.get("campaign_replay"):
+        extra["campaign"] = f["campaign"]
+        extra["campaign_sub"] = f.get("campaign_sub")
+        f = dict(f, engine="rc-campaign")
     body = json.dumps(dict(**extra, property=prop, sub=f.get("sub"), key=f.get("key"), msg=(f.get("msg") or "")[:2000],
                            harness=f.get("harness"), engine=f.get("engine", "rc"), case=f.get("case")), indent=1)
     h = hashlib.sha1(body.encode()).hexdigest()[:10]
